@@ -1076,7 +1076,7 @@ def graph_helpers(run, src):
                 attrs, mk_ = p.value
                 ok = all(len(mk_.get(nm, [])) == 2 for nm in ("_get_parents", "_get_childs", "_get_topo_sort")) and \
                     attrs.get("_parents") is mk_["_get_parents"][1] and attrs.get("_childs") is mk_["_get_childs"][1] and attrs.get("_topo_nodes") is mk_["_get_topo_sort"][1]
-            obls.append({"id": "system.System._rel_update/post:relationship tables rebuilt from the graph on every call (no stale cache)@p%d" % pi, "hyps": p.pc, "goal": z3.BoolVal(bool(ok)), "kind": "post", "tags": ["C01", "C16", "C14"], "meta": {}})
+            obls.append({"id": "system.System._rel_update/post:relationship tables rebuilt from the graph on every call (no stale cache)@p%d" % pi, "hyps": p.pc, "goal": z3.BoolVal(bool(ok)), "kind": "post", "tags": ["C01", "C16", "C14", "TABLE"], "meta": {}})
     except (Unsupported, FunctionMissing) as u:
         run.undecide("system.System._rel_update/post", str(u))
     run.assumed.add("rustworkx.topological_sort / node_indices: every live node exactly once, indices >= 0")
